@@ -418,6 +418,77 @@ def r11_weight_validator(ctx):
         ctx.vanished(f"Ballot weight validator obligations: only {n}")
 
 
+def r12_piles(ctx):
+    """ballots_by_first_cand: the piles partition the ballots by their FIRST position - every ballot of the profile is
+    filed once, under the member of ranking[0].  (What the tallies of an STV round and the transfer of a pile stand on.)"""
+    prog = ctx.prog
+    f = prog.find_func("ballots_by_first_cand")
+    ctx.consult(f)
+    pm = astx.parents(f.node)
+    loops = [n for n in astx.walk_own(f.node) if isinstance(n, ast.For) and isinstance(n.target, ast.Name) and astx.u(n.iter).endswith(".ballots")]
+    if len(loops) != 1:
+        ctx.undecided(f, f.node, "piles by first preference", f"{len(loops)} loops over the profile's ballots (one expected)")
+        return
+    lp = loops[0]
+    b = lp.target.id
+    # (a) the position read
+    subs = [n for n in ast.walk(lp) if isinstance(n, ast.Subscript) and astx.u(n.value) == f"{b}.ranking"]
+    if not subs:
+        ctx.undecided(f, lp, "the pile key is read from the first position", f"no subscript of {b}.ranking in the loop: the first position is read in a form this clause does not model")
+    for n in subs:
+        if astx.is_const(n.slice):
+            ctx.check(astx.is_const(n.slice, 0), f, n, "the pile key is read from the first position", astx.u(n),
+                      f"`{astx.u(n)}`: the ballot is filed under a candidate of another position than the first, so tallies are not first-preference tallies")
+        else:
+            ctx.undecided(f, n, "the pile key is read from the first position", f"`{astx.u(n)}`: position is not a literal")
+    # (b) every ballot is filed once
+    def is_store(n):
+        if isinstance(n, ast.Call) and isinstance(n.func, ast.Attribute) and n.func.attr == "append" and len(n.args) == 1 and astx.is_name(n.args[0], b):
+            return True
+        if isinstance(n, ast.AugAssign) and isinstance(n.op, ast.Add) and isinstance(n.target, ast.Subscript) and astx.u(n.value) in (f"[{b}]", f"({b},)"):
+            return True
+        if isinstance(n, ast.Assign) and isinstance(n.targets[0], ast.Subscript) and isinstance(n.value, ast.BinOp) and isinstance(n.value.op, ast.Add) \
+                and astx.u(n.value.right) in (f"[{b}]", f"({b},)") and astx.u(n.value.left) == astx.u(n.targets[0]):
+            return True
+        return False
+    stores = [n for n in ast.walk(lp) if is_store(n)]
+    if not stores:
+        others = [n for n in ast.walk(lp) if isinstance(n, ast.Name) and n.id == b and isinstance(n.ctx, ast.Load)
+                  and not isinstance(astx.stmt_of(n, pm), (ast.If, ast.Raise, ast.Assert)) and not isinstance(pm.get(n), ast.Attribute)]
+        if others:
+            ctx.undecided(f, lp, "every ballot is filed in a pile", f"`{b}` is passed on in a form this clause does not model")
+        else:
+            ctx.violated(f, lp, "every ballot is filed in a pile", f"the loop over the ballots never stores `{b}`: the piles stay empty and every tally and transfer built on them loses the votes")
+        return
+    if len(stores) > 1:
+        ctx.undecided(f, stores[1], "every ballot is filed in a pile", f"{len(stores)} stores of `{b}`")
+        return
+    st = stores[0]
+    skips = [n for n in ast.walk(lp) if isinstance(n, (ast.Continue, ast.Break)) and astx.enclosing(n, pm, (ast.For, ast.While)) is lp]
+    rets = [n for n in ast.walk(lp) if isinstance(n, ast.Return)]
+    if skips or rets:
+        x = (skips + rets)[0]
+        ctx.violated(f, x, "every ballot is filed in a pile", f"`{astx.u(x)}` inside the loop: ballots after (or at) this point are not filed, their votes vanish from the piles")
+        return
+    cur, free = st if isinstance(st, ast.stmt) else astx.stmt_of(st, pm), True
+    why = ""
+    while cur is not lp:
+        par = pm[cur]
+        if isinstance(par, ast.If):
+            other = par.orelse if cur in par.body else par.body
+            if not (other and astx.always_raises(other)):
+                free, why = False, f"the store stands under `{astx.u(par.test)[:60]}` whose other branch does not raise"
+                break
+        elif par is not lp and not isinstance(par, (ast.With, ast.Try)):
+            free, why = False, f"the store stands inside a {type(par).__name__}"
+            break
+        cur = par
+    if free:
+        ctx.ok(f, st, "every ballot is filed in a pile", "the only ways past the store are raises")
+    else:
+        ctx.undecided(f, st, "every ballot is filed in a pile", why)
+
+
 RULES = [
     ("C03.R11", r11_weight_validator, 3, "prerequisite: Ballot's weight validator keeps an exact Fraction weight as it is (C11.R2)"),
     ("C03.R1", r1_winner_filtered, 5, "the winner is filtered out of every position; emptied positions dropped; siblings agree"),
@@ -429,6 +500,7 @@ RULES = [
     ("C03.R7", r7_surplus_factor, 3, "fractional rule: weight*(tally-threshold)/tally on winner-first ballots, full weight otherwise (formula normal form)"),
     ("C03.R9", r9_selector_partition, 4, "prerequisite: the selector's elected + remaining partition its input (no candidate's pile is lost)"),
     ("C03.R10", r10_transfer_wiring, 2, "prerequisite: each elected candidate's own pile goes through the transfer function once (C02.R8)"),
+    ("C03.R12", r12_piles, 2, "prerequisite: ballots_by_first_cand files every ballot once, under the candidate of its first position"),
     ("C03.R8", r8_cursor_discipline, 5, "every cursor-filled ballot list advances its cursor by exactly what was written, in the same block"),
 ]
 
@@ -460,4 +532,22 @@ BENIGN = [
     ("factor via local fraction", [(TR, "transfer_value = (fpv - threshold) / Fraction(fpv)", "fpv = Fraction(fpv)\n    transfer_value = (fpv - threshold) / fpv")]),
     ("winner filter operands swapped", [(TR, "                [frozenset([c for c in s if c != winner]) for s in ballot.ranking]\n            )\n            new_ranking = tuple([s for s in new_ranking if len(s) != 0])\n\n            transfered_ballots[i]",
                                          "                [frozenset([c for c in s if winner != c]) for s in ballot.ranking]\n            )\n            new_ranking = tuple([s for s in new_ranking if len(s) > 0])\n\n            transfered_ballots[i]")]),
+]
+
+# piles by first preference (C03.R12)
+UTL = "src/votekit/utils.py"
+_PILE = "            first_cand = list(b.ranking[0])\n"
+_PILE_STORE = "            cand_dict[first_cand[0]].append(b)\n"
+FAULTS += [
+    ("piles keyed by the last position", [(UTL, _PILE, "            first_cand = list(b.ranking[-1])\n")], "C03.R12"),
+    ("piles keyed by the second position", [(UTL, _PILE, "            first_cand = list(b.ranking[1])\n")], "C03.R12"),
+    ("ballots never filed", [(UTL, _PILE_STORE, "")], "C03.R12"),
+    ("filing stops at the first bullet vote", [(UTL, _PILE_STORE, _PILE_STORE + "            if len(b.ranking) == 1:\n                break\n")], "C03.R12"),
+]
+BENIGN += [
+    ("pile grown with +=", [(UTL, _PILE_STORE, "            cand_dict[first_cand[0]] += [b]\n")]),
+    ("sole member unpacked", [(UTL, _PILE_STORE, "            (only,) = first_cand\n            cand_dict[only].append(b)\n")]),
+    ("ranking test as a guard clause", [(UTL, "        if not b.ranking:\n            raise TypeError(\"Ballots must have rankings.\")\n        else:\n            # find first place candidate, ensure there is only one\n"
+                                         "            first_cand = list(b.ranking[0])\n            if len(first_cand) > 1:\n                raise ValueError(f\"Ballot {b} has a tie for first.\")\n\n            cand_dict[first_cand[0]].append(b)\n",
+                                         "        if not b.ranking:\n            raise TypeError(\"Ballots must have rankings.\")\n        top = b.ranking[0]\n        if len(top) > 1:\n            raise ValueError(f\"Ballot {b} has a tie for first.\")\n        cand_dict[next(iter(top))].append(b)\n")]),
 ]
